@@ -997,13 +997,23 @@ func (c *ctx) determinism() int {
 			if r.Violation != nil {
 				fp = r.Violation.fingerprint()
 			}
-			cur[r.Idx] = r.LogHash + "|" + r.Sig + "|" + fp
+			if fp != "" {
+				// a run that violates the property may legitimately be schedule-dependent
+				// below the seams (that is often the defect itself): the search phase
+				// reports it; only violation-free runs are compared bit for bit
+				cur[r.Idx] = "violation"
+				continue
+			}
+			cur[r.Idx] = r.LogHash + "|" + r.Sig
 		}
 		if first == nil {
 			first = cur
 			continue
 		}
 		for idx, h := range first {
+			if h == "violation" || cur[idx] == "violation" {
+				continue
+			}
 			if cur[idx] != h {
 				fmt.Fprintf(os.Stderr, "check: determinism self-test failed for %s run %d: GOMAXPROCS=1 gives %s, GOMAXPROCS=16 gives %s\n", c.spec.ID, idx, h, cur[idx])
 				return 2
